@@ -640,6 +640,16 @@ def r9(ctx):
     else:
         pb, c = site
         seq = c.matches(r'^std::iter::Iterator::(map|for_each|filter_map)$|^core::iter')
+        if not seq:
+            # execute() may be called in a `for` loop over the commands of ONE group inside the closure that the parallel map applies to the
+            # groups: sequential all the same, if the loop iterates over (a part of) the closure's own item
+            for cp_ in lib.closures_of(rs.path):
+                cb_ = lib.body(cp_)
+                for ex_ in cb_.calls(r'dedupe::FsCommand::execute$'):
+                    nxt_ = [k_ for k_ in cb_.calls(r'Iterator>::next$|Iterator::next$') if ex_.bb in cb_.reachable(k_.bb) and k_.bb in cb_.reachable(ex_.bb)]
+                    item_ = backslice(cb_, [ex_.args[0]])
+                    if nxt_ and any(k_ in item_.calls for k_ in nxt_) and 2 in backslice(cb_, [nxt_[0].args[0]]).params and 'Vec<dedupe::FsCommand>' in cb_.local_ty(2):
+                        seq = True
         ctx.check(seq, rule, rs.path + '|group-commands-in-order', c.where(), 'execute() is applied by a sequential iterator over the commands of one group',
                   'execute() is the item function of %s: the commands of one group run in parallel / in arbitrary order although they depend on each other - with a -S report `move` renames the file M '
                   'before the link Z -> M is copied through, the copy fails, Z is left behind dangling and one file less is processed than --dry-run announces' % c.path)
